@@ -85,7 +85,7 @@ PROPS = {
     'C09': dict(
         level='fault_enumeration', flavours=fl(['debug'], ['debug']), custom=True,
         rule="(1) exactly-once release: allocator events of the hooked backing block and mmap/munmap pairing in the strace log; "
-             "(2) loader x failure cause (wrong type, each header field corrupted, truncation at sampled cuts, empty file, missing "
+             "(2) loader x failure cause (wrong type, each header field corrupted, truncation at sampled cuts, empty file, a directory in place of the file (read error in the body), missing "
              "file): heap live bytes and /proc/self/maps equal before/after; (3) probe programs per access path x result shape: "
              "rejected by the borrow checker, or compiled and run under ASan; distinct = (loader, failure cause) / probe",
         floors=fl({'failed_loads': 200, 'probe_programs': 20}, {'failed_loads': 2000}),
